@@ -996,6 +996,21 @@ pub fn replay_format(cases: &str, trace: &str, summary: &str, tier: &str) {
                     }
                 }
             }
+            // C13: a verbatim region is copied unchanged, alone and inside every other directive (and two deep)
+            if depth <= 1 || (tier != "quick" && depth <= 2) {
+                let payload = format!("( {} )", min_t.join("  ")); // hand spacing the printer would never produce
+                for outer in ["", "@[format(indent(4))] ", "@[format(width(30))] ", "@[format(layout(ignore), parentheses(preserve))] ", "@[format(width(60))] @[format(indent(3))] "] {
+                    let src = format!("{outer}@[format(verbatim)] {payload}\n");
+                    let o = format!("{origin} [verbatim under `{}`]", outer.trim());
+                    if let Some(out) = eval_case(&src, &Opt::default(), &o, &mut tally, &mut findings) {
+                        if !out.contains(&payload) {
+                            tally.hit("verbatim");
+                            findings.push(json!({"property": "C13", "kind": "verbatim-region-changed", "origin": o, "options": "default", "input": src,
+                                "detail": format!("the payload `{payload}` was re-flowed: {:?}", out), "extra": {"output": out}}));
+                        }
+                    }
+                }
+            }
             // C13: one comment in every token gap of the minimal spelling
             let (pred_stay, pred_hop) = (nums("predMin"), nums("predMinHop"));
             // a spec token may be several lexemes (`@[inline]`): positions are compared in spec-token units
@@ -1074,6 +1089,7 @@ pub fn replay_format(cases: &str, trace: &str, summary: &str, tier: &str) {
                 "structure": tally.bad.get("structure").copied().unwrap_or(0), "comments": tally.bad.get("comments").copied().unwrap_or(0),
                 "tokens": tally.bad.get("tokens").copied().unwrap_or(0), "newline": tally.bad.get("newline").copied().unwrap_or(0),
                 "idempotence": tally.bad.get("idempotence").copied().unwrap_or(0), "canon": canon_bad, "skeleton": skeleton_bad,
+                "verbatim": tally.bad.get("verbatim").copied().unwrap_or(0),
                 "placements": placements, "movedAsModelled": moved_as_modelled, "modelImprecise": model_imprecise,
                 "sideBad": findings.iter().filter(|f| f["kind"].as_str().is_some_and(|k| k.starts_with("comment-crosses") || k.starts_with("comment-moved"))).count()});
             (tally, findings, rec)
@@ -1207,6 +1223,17 @@ pub fn corpus_format(trace: &str, summary: &str, tier: &str, mutants: usize) {
                 if tier != "quick" {
                     let nested = format!("@[format(width(25))] (\n@[format({d})] (\n{}\n)\n)\n", src.trim_end());
                     eval_case(&nested, &Opt::default(), &format!("{name} [nested @[format({d})]]"), &mut tally, &mut findings);
+                }
+            }
+            // (e2) the whole file as a verbatim region inside another directive
+            for outer in ["indent(4)", "width(60), layout(ignore)"] {
+                let wrapped = format!("@[format({outer})] (\n@[format(verbatim)] (\n{}\n)\n)\n", src.trim_end());
+                if let Some(o) = eval_case(&wrapped, &Opt::default(), &format!("{name} [verbatim inside @[format({outer})]]"), &mut tally, &mut findings) {
+                    if !o.contains(src.trim_end()) {
+                        verbatim_bad += 1;
+                        findings.push(json!({"property": "C13", "kind": "verbatim-region-changed", "origin": name, "options": "default", "input": clip(&wrapped),
+                            "detail": format!("inside @[format({outer})]: {}", first_line_difference(&wrapped, &o))}));
+                    }
                 }
             }
             // (f) random edits
